@@ -267,6 +267,9 @@ def execute(sc):
     counters['mutations_applied'] = applied
     _res_faults = applied_kinds
     counters['runs_with_2+_offending_or_structural'] = multi
+    if seam.stats.get('leaked_fds'):
+        # conservation: one descriptor left open per reported path ends a keep-going run over many offending paths with EMFILE
+        violations.append(viol('keepgoing.descriptor-leak', '%d file descriptor(s) opened by the verification were never closed' % seam.stats['leaked_fds'], sig='fd'))
     res = mk_result([seam], violations, judged > 0 and multi > 0, outcome=outcome, dontcare=zones,
                     counters=counters, ops=len(sc.get('ops', [])))
     for k_, v_ in _res_faults.items():
